@@ -592,7 +592,7 @@ class Interp:
             recv = self.frames_self(env)
             m = owner.parent.find_method(e[1]) if owner.parent is not None else None
             if m is None:
-                raise self.error("RuntimeError", "Undefined property %s on class %s." % (e[1], owner.parent.name))
+                raise self.error("PropertyError", "Undefined property %s on class %s." % (e[1], owner.parent.name))
             return LBound(recv, m)
         if k == "chan":
             return self.eval_chan(e, env)
@@ -775,10 +775,10 @@ class Interp:
         if isinstance(obj, LModuleObj):
             if name in obj.exports:
                 return obj.exports[name].v
-            raise self.error("RuntimeError", "Undefined property %s on class %s." % (name, obj.name))
+            raise self.error("PropertyError", "Undefined property %s on class %s." % (name, obj.name))
         m = self.find_method_value(obj, name)
         if m is None:
-            raise self.error("RuntimeError",
+            raise self.error("PropertyError",
                              "Undefined property %s on class %s." % (name, self.class_of(obj).name))
         return m
 
